@@ -374,6 +374,11 @@ func FamilyRef(thorough bool, seed int64) []*Skeleton {
 		// local fragments only: fine under any base
 		mk("local", root, J{"$defs": J{"t": J{"$anchor": "top", "const": 1}, "u": J{"const": 2, "$defs": J{"v": J{"$anchor": "deep", "const": 3}}}}},
 			map[string]string{"p": "#/$defs/t", "a": "#top", "n": "#/$defs/u/$defs/v", "d": "#deep", "self": "#"}, nil, false)
+		// "#" designates the root of the *resource* it occurs in: inside an embedded resource, that resource
+		mk("hash-in-embedded-resource", root, J{"$defs": J{"e": J{"$id": "http://emb/e.json", "properties": J{"r": J{"$ref": "#"}}, "not": J{"const": 7}}}},
+			map[string]string{"d": "http://emb/e.json", "self": "#"}, nil, false)
+		mk("hash-pointer-in-embedded-resource", root, J{"$defs": J{"e": J{"$id": "http://emb/e.json", "properties": J{"r": J{"$ref": "#/$defs/k"}}, "$defs": J{"k": J{"const": 8}}}, "k": J{"const": 9}}},
+			map[string]string{"d": "http://emb/e.json", "k": "#/$defs/k"}, nil, false)
 		mk("local-missing-anchor", root, J{"$defs": J{"t": J{"$anchor": "top", "const": 1}}}, map[string]string{"a": "#nope"}, nil, false)
 		mk("local-missing-pointer", root, J{"$defs": J{"t": J{"const": 1}}}, map[string]string{"a": "#/$defs/zz"}, nil, false)
 		mk("local-absent-keyword", root, J{"$defs": J{"t": J{"const": 1}}}, map[string]string{"a": "#/not", "b": "#/$defs/t/items", "c": "#/additionalProperties"}, nil, false)
@@ -564,6 +569,46 @@ func FamilyPtr(draft int) []*Skeleton {
 	// invalid or dangling pointers: Resolve must fail
 	for _, bad := range []string{"/allOf/2", "/allOf/-", "/allOf/01", "/allOf/+1", "/allOf/-0", "/allOf/1x", "/allOf/", "/properties/zz", "/not/not", "/nope", "/properties", "/allOf", "/properties/~", "/properties/~2", "/required/0", "/type"} {
 		add("bad:"+bad, "#"+pct("/"+defsKw+"/max"+bad))
+	}
+	return out
+}
+
+// FamilyDynOrder: one generic resource with a $dynamicRef instantiated twice, under sibling
+// properties, by two resources that declare the same dynamic anchor differently. Within one
+// Validate call the anchor is looked up under two dynamic scopes; explored under every
+// iteration order of the properties map (C14) and as plain skeletons (C06).
+func FamilyDynOrder(allOrders bool) []*Skeleton {
+	box := J{"$id": "http://x/box", "properties": J{"value": J{"$dynamicRef": "#T"}}, "$defs": J{"t": J{"$dynamicAnchor": "T"}}}
+	inst := func(id string, tconstraint J) J {
+		return J{"$id": id, "$ref": "http://x/box", "$defs": J{"t": merge(J{"$dynamicAnchor": "T"}, tconstraint)}}
+	}
+	docs := map[string]J{
+		"two-instantiations": {"$id": "http://x/root", "properties": J{"a": J{"$ref": "http://x/intbox"}, "b": J{"$ref": "http://x/strbox"}},
+			"$defs": J{"box": box, "i": inst("http://x/intbox", J{"type": "integer"}), "s": inst("http://x/strbox", J{"type": "string"})}},
+		"three-instantiations": {"$id": "http://x/root", "properties": J{"a": J{"$ref": "http://x/intbox"}, "b": J{"$ref": "http://x/strbox"}, "c": J{"$ref": "http://x/box"}},
+			"$defs": J{"box": box, "i": inst("http://x/intbox", J{"type": "integer"}), "s": inst("http://x/strbox", J{"type": "string"})}},
+		"allOf-two-instantiations": {"$id": "http://x/root", "allOf": A{J{"properties": J{"a": J{"$ref": "http://x/intbox"}}}, J{"properties": J{"b": J{"$ref": "http://x/strbox"}}}},
+			"$defs": J{"box": box, "i": inst("http://x/intbox", J{"type": "integer"}), "s": inst("http://x/strbox", J{"type": "string"})}},
+	}
+	var names []string
+	for n := range docs {
+		names = append(names, n)
+	}
+	sort.Strings(names)
+	var out []*Skeleton
+	for _, n := range names {
+		d := js(docs[n])
+		sk := &Skeleton{Name: "F-dynorder/" + n, Family: "F-dynorder", Doc: d, Draft: refsem.Draft2020, AllOrders: allOrders}
+		sk.Tm = &sx.Tmpl{Depth: 2, MaxLen: 0, Keys: []string{"a", "b", "c", "value"}, KeysFor: func(node string) ([]string, bool) {
+			if node == "I" {
+				return []string{"a", "b", "c"}, true
+			}
+			return []string{"value"}, true
+		}}
+		if allOrders {
+			sk.Name += ".all-orders"
+		}
+		out = append(out, sk)
 	}
 	return out
 }
